@@ -105,7 +105,7 @@ def mkRT (imp ctx bi : List Name) : RT :=
 
 def sortStrs (xs : List String) : List String := (xs.toArray.qsort (· < ·)).toList
 
-def encScope (c : Cfg) (rt : RT) (tops : List Name) (extra : List Name) (s : Scope) : String :=
+def encScope (c : Cfg) (rt : RT) (tops : List Name) (extra : List Name) (bodyArgs : List Name) (s : Scope) : String :=
   let ids := s.ids
   let useLoc := (s.frames.headD {}).useLocals
   let decls := sortStrs ((toWrite c ids none).map fun x => encStr x ++ ":" ++ encDeclKind (classify c ids useLoc x))
@@ -121,6 +121,10 @@ def encScope (c : Cfg) (rt : RT) (tops : List Name) (extra : List Name) (s : Sco
       -- emission order of the declarations and of the `__M_locals` keys (sorted since the hash-seed fix)
       "O=" ++ encNames (emitOrder c ids none),
       "MO=" ++ (match s.mlocals with | some ks => encNames ks | none => "none"),
+      -- key lists of the `__M_locals.update(…)` statements of this function, in order
+      "U=" ++ (if !s.inDef && !ids.locAssigned.isEmpty then
+                 "/".intercalate ("" :: (codesOf s.body).map fun d => encNames (sortNames (dedup (mlKeys bodyArgs d))))
+               else "-"),
       "X=" ++ encNames ((s.ids :: s.extraIds).flatMap (fun i => i.conflicts c)),
       -- keys of `__M_locals = __M_dict_builtin(k=k, …)` without a Python binding: NameError at entry
       "E=" ++ encNames ((s.mlocals.getD []).filter fun k =>
@@ -142,10 +146,10 @@ def handle : Handler
           if !left.isEmpty then none else
           let rt := mkRT imp ctx bi
           let tops := (moduleIds c t).topdefs
-          let scopes := (allScopes c t).map (encScope c rt tops extra)
+          let scopes := (allScopes c t).map (encScope c rt tops extra (bodyFrame c t).ids.argDecl)
           let fr := bodyFrame c t
           let mls := stops.map fun k =>
-            let a := mlRun k t (mlInit fr.ids.argDecl, false)
+            let a := mlRun fr.ids.argDecl k t (mlInit fr.ids.argDecl, false)
             let b := Spec.overlayRun k t (mlInit fr.params, false)
             toString k ++ ":" ++ encBool a.2 ++ ":" ++ encML a.1 ++ ":" ++ encBool b.2 ++ ":" ++ encML b.1
           pure (";".intercalate scopes ++ " #C=" ++ encNames (dedup (compileConflicts c t))
